@@ -3,15 +3,15 @@
 For each seed dir /tmp/seed-<cNN-k>: run tools/seedcheck.sh against the property's quick check; if VIOLATION lines appear,
 archive as 'caught' with the signatures (tools/seedstore.py) and remove the scratch worktree; otherwise print MISSED and leave it."""
 import sys, subprocess, re, os
-for s in sys.argv[1:]:
+def handle(s):
     d = '/tmp/seed-' + s
     prop = s.split('-')[0].upper(); sid = s.upper()
     if not os.path.exists(d + '/SEED/patch.diff'):
-        print(sid, 'NO PATCH'); continue
+        print(sid, 'NO PATCH'); return
     out = subprocess.run(['/verif/tools/seedcheck.sh', d, prop], capture_output=True, text=True).stdout
     sigs = sorted(set(re.findall(r'VIOLATION property=\S+ replay=\S+ sig=(\S+)', out)))
     if 'PATCH DOES NOT APPLY' in out:
-        print(sid, 'PATCH DOES NOT APPLY to HEAD'); continue
+        print(sid, 'PATCH DOES NOT APPLY to HEAD'); return
     if sigs:
         subprocess.run(['python3', '/verif/tools/seedstore.py', d, sid, prop, 'caught'] + sigs[:6], stdout=subprocess.DEVNULL)
         subprocess.run(['git', '-C', '/repo', 'worktree', 'remove', '--force', d], stdout=subprocess.DEVNULL, stderr=subprocess.DEVNULL)
@@ -28,3 +28,7 @@ for s in sys.argv[1:]:
             out2 = subprocess.run(['/verif/tools/seedcheck.sh', d, o], capture_output=True, text=True).stdout
             sigs2 = sorted(set(re.findall(r'VIOLATION property=\S+ replay=\S+ sig=(\S+)', out2)))
             print('   ', sid, 'under', o + ':', 'CAUGHT ' + ' '.join(sigs2[:3]) if sigs2 else 'silent')
+
+import concurrent.futures as cf
+with cf.ThreadPoolExecutor(3) as ex:
+    list(ex.map(handle, sys.argv[1:]))
